@@ -64,6 +64,27 @@ def moduli(idx):
     return np.vectorize(lambda t: MOD[t])(idx)
 
 
+def _padded_dia(c):
+    """the same matrix as DIA storage with full-length diagonals whose out-of-range slots hold non-zero padding."""
+    c = np.asarray(c, float)
+    m, n = c.shape
+    offs = list(range(-(m - 1), n))
+    L = n  # scipy's dia data has one row per offset and n columns; entry (i, j) of offset k lives at data[k_idx, j]
+    data = np.full((len(offs), L), 7.25)  # padding value, never part of the matrix
+    for t, k in enumerate(offs):
+        for j in range(n):
+            i = j - k
+            if 0 <= i < m:
+                data[t, j] = c[i, j]
+    return sp.dia_matrix((data, offs), shape=(m, n))
+
+
+def _coo_dup(c):
+    c = np.asarray(c, float)
+    r, k = np.nonzero(np.ones_like(c))
+    return sp.coo_matrix((np.concatenate([c[r, k] * 0.25, c[r, k] * 0.75]), (np.concatenate([r, r]), np.concatenate([k, k]))), shape=c.shape)
+
+
 def cases(tier, seed):
     S = 3 if tier == "quick" else 5
     out = []
@@ -149,6 +170,13 @@ def run_case(case, seed):
                     ("normQsparse(csr_array)", lambda: u.normQsparse(*[sp.csr_array(c) for c in comps(A)]), expF, 16 * O.U * 4 * m * n * expF),
                     ("normQsparse(coo_array)", lambda: u.normQsparse(*[sp.coo_array(c) for c in comps(A)]), expF, 16 * O.U * 4 * m * n * expF),
                     ("normQsparse(csc_array)", lambda: u.normQsparse(*[sp.csc_array(c) for c in comps(A)]), expF, 16 * O.U * 4 * m * n * expF),
+                    ("normQsparse(lil_matrix)", lambda: u.normQsparse(*[sp.lil_matrix(c) for c in comps(A)]), expF, 16 * O.U * 4 * m * n * expF),
+                    ("normQsparse(dok_matrix)", lambda: u.normQsparse(*[sp.dok_matrix(c) for c in comps(A)]), expF, 16 * O.U * 4 * m * n * expF),
+                    ("normQsparse(bsr_matrix)", lambda: u.normQsparse(*[sp.bsr_matrix(c) for c in comps(A)]), expF, 16 * O.U * 4 * m * n * expF),
+                    ("normQsparse(dia_matrix)", lambda: u.normQsparse(*[sp.dia_matrix(c) for c in comps(A)]), expF, 16 * O.U * 4 * m * n * expF),
+                    # DIA storage built from full-length diagonals (spdiags): the entries stored outside the matrix are NOT part of it
+                    ("normQsparse(spdiags, padded)", lambda: u.normQsparse(*[_padded_dia(c) for c in comps(A)]), expF, 16 * O.U * 4 * m * n * expF),
+                    ("normQsparse(coo duplicates)", lambda: u.normQsparse(*[_coo_dup(c) for c in comps(A)]), expF, 16 * O.U * 4 * m * n * expF),
                     ("tensor_frobenius_norm", lambda: lib.tensor.tensor_frobenius_norm(Aq), expF, 16 * O.U * 4 * m * n * expF),
                     ("tensor_frobenius_norm(3d)", lambda: lib.tensor.tensor_frobenius_norm(Aq.reshape(m, n, 1)), expF, 16 * O.U * 4 * m * n * expF),
                 ]
@@ -333,7 +361,8 @@ def run_case(case, seed):
             elif float(v) != 0.0:
                 fails.append(fail("norm!=definition", f"{nm} on an empty {m}x{n} matrix = {float(v)!r}", fn=nm, grp="empty"))
     else:
-      shapes_ = {"2x3": np.array([[5, 6, 1], [2, 9, 3]]), "1x3": np.array([[5, 6, 2]]), "3x1": np.array([[5], [6], [2]]), "1x1": np.array([[9]]), "2x2": np.array([[5, 6], [2, 9]])}
+      shapes_ = {"2x3": np.array([[5, 6, 1], [2, 9, 3]]), "1x3": np.array([[5, 6, 2]]), "3x1": np.array([[5], [6], [2]]), "1x1": np.array([[9]]), "2x2": np.array([[5, 6], [2, 9]]),
+                 "zero2x3": np.zeros((2, 3), dtype=int), "zero1x1": np.zeros((1, 1), dtype=int), "zero3x3": np.zeros((3, 3), dtype=int), "single_entry": np.array([[0, 0], [5, 0]])}
       for shp_name, idx_ in shapes_.items():
         A = mat(idx_).astype(float)  # non-symmetric moduli; row / column vectors and 1x1 included
         Aq = G.to_quat(A)
